@@ -527,13 +527,12 @@ Proof. exact lock_last_wins_names. Qed.
 Print Assumptions C15_lock_last_wins.
 
 (* ---------- translator: the constants of pkg/ignore/rules.go ---------- *)
-(* read from the source on every run (hx gen-tables -> Gen/IgnoreConsts.v): the rule AddDefaults
-   installs, the literals of parseRule's Contains / HasPrefix / HasSuffix checks and the name of its
-   filepath.Match probe are the ones the model uses -- the model's parse_ignore appends exactly the
-   rules of AddDefaults, and its probe is the probe of the source *)
+(* read from the source on every run (hx gen-tables -> Gen/IgnoreConsts.v), by value (through
+   constants, local variables, concatenations, same-package helpers): the rules AddDefaults hands to
+   parseRule and the names parseRule probes filepath.Match with are the ones of the model -- the
+   model's parse_ignore appends exactly the rules of AddDefaults, and its probe is the probe of the source *)
 Theorem C15_ignore_constants :
-  (ignore_default_rules = ["templates/.?*"] /\ ignore_contains_checks = ["**"; "/"] /\
-   ignore_match_probes = ["abc"] /\ ignore_prefix_checks = ["#"; "!"; "/"] /\ ignore_suffix_checks = ["/"]) /\
+  (ignore_default_rules = ["templates/.?*"] /\ ignore_match_probes = ["abc"]) /\
   (forall (pe : string -> bool) (text : option string),
      parse_ignore pe text =
      match parse_lines pe (match text with Some t => ignore_lines t | None => [] end),
